@@ -20,3 +20,4 @@ try:
 finally:
     subprocess.run(["git","-C","/repo","checkout","--","."])
     subprocess.run(["git","-C","/repo","clean","-fdq"])
+    subprocess.run(["git","-C","/verif","checkout","--","evidence"])  # evidence must describe runs on the unchanged tree
